@@ -20,7 +20,7 @@
 From Coq Require Import List ZArith Bool String.
 From ApiFu Require Val.Values Val.CoerceModel Val.CoerceSpec Val.CoerceCheck.
 From ApiFu Require Import Base.Sexp Cost.CostModel Cost.CostSpec Cost.CostArgs Cost.CostTrace.
-From ApiFu Require Cost.CostArgsProofs Val.BridgeC04 Val.BridgeC04Proofs Vld.ValidatorModel.
+From ApiFu Require Cost.CostArgsProofs Cost.CostC04Usage Val.BridgeC04 Val.BridgeC04Proofs Vld.ValidatorModel Vld.ProofsTypeInfoValues.
 Import ListNotations.
 Open Scope string_scope.
 Open Scope Z_scope.
@@ -788,6 +788,17 @@ Definition field_facts (E : Values.env) (defs : list Values.vardef) (f : afield 
   && CostArgsProofs.field_usage_ok ctxT E defs f.
 
 (** C04's per-node checks on the translation of a field selection ([CostC04.c04_node_silent]) *)
+(** validateVariables' visitor inside every argument value ([CostC04.c04_usage_silent]) *)
+Definition c04_usage_ok (E : Values.env) (defs : list Values.vardef) (f : afield ctxT) : bool :=
+  forallb (fun a : Values.name * Values.lit =>
+             match Values.aget (fst a) (af_argdefs f) with
+             | Some d =>
+                 CostC04Usage.nil_errs
+                   (ProofsTypeInfoValues.usage_errs true (BridgeC04.tr_env E) (CostC04Usage.ann_vardefs defs) false
+                      (Some (BridgeC04.tr_sty (Values.in_type d))) (CoerceModel.arg_loc_default true d) (BridgeC04.tr_lit (snd a)))
+             | None => false
+             end) (af_args f).
+
 Definition c04_node_ok (E : Values.env) (f : afield ctxT) : bool :=
   match fst (ValidatorModel.args_node ValidatorModel.repaired ValidatorModel.id_order []
                (BridgeC04.tr_args 0 (af_args f)) (BridgeC04.tr_argdefs (af_argdefs f)) (0%N, 0%N)) with
@@ -806,7 +817,8 @@ Definition c04_defaults_ok (E : Values.env) (defs : list Values.vardef) : bool :
                     end) defs.
 Definition c04_nodes_ok (E : Values.env) (defs : list Values.vardef) (frs : list (bytes * anode ctxT)) (body : anode ctxT) : bool :=
   BridgeC04.bridgeable E && BridgeC04Proofs.no_float E && c04_defaults_ok E defs
-  && forallb (c04_node_ok E) (reachable_fields frs body).
+  && forallb (fun d => CoerceModel.type_known E (Values.vd_type d)) defs
+  && forallb (fun f => c04_node_ok E f && c04_usage_ok E defs f) (reachable_fields frs body).
 
 Definition request_facts (E : Values.env) (defs : list Values.vardef) (frs : list (bytes * anode ctxT)) (body : anode ctxT) : bool :=
   CoerceSpec.env_ok E
